@@ -98,7 +98,17 @@ def run_history(case, root, u, schedules, name=None, base_args=('-r', 'T')):
     while True:
         ev = scheds[ri] if ri < len(scheds) else []
         ev = resolve(ev, rem, pos if distinct else 0, segs)
-        r = guard(case, session.run_main, root, args, ev, clock_step=case.get('clock_step'), stdin_isatty=case.get('stdin_isatty'))
+        if case.get('process_hashseeds'):
+            # every run of the history is a process of its own, each with another string-hash seed (as a user's runs are)
+            hs = case['process_hashseeds'][ri % len(case['process_hashseeds'])]
+            try:
+                r = session.run_main_subprocess(root, args, ev, hashseed=hs, clock_step=case.get('clock_step'), stdin_isatty=case.get('stdin_isatty'))
+            except Violation as v:
+                v.case = case
+                raise
+            summary['separate_processes'] = summary.get('separate_processes', 0) + 1
+        else:
+            r = guard(case, session.run_main, root, args, ev, clock_step=case.get('clock_step'), stdin_isatty=case.get('stdin_isatty'))
         if r.error:
             raise Violation('crash:main', f'run {ri}: main() ended with {r.error}; stderr tail: {r.stderr[-300:]}', case)
         args = list(base_args) + ['-s', name, '--load']
